@@ -191,9 +191,117 @@ func stripValue(v ssa.Value) ssa.Value {
 				return v
 			}
 		default:
+			if u := unspill(v); u != v {
+				v = u
+				continue
+			}
 			return v
 		}
 	}
+}
+
+// unspill: a variable that a closure captures lives in a cell (t0 = new T; *t0 = x; ... *t0). When the cell is
+// written exactly once, that store comes before the load, and no closure writes it or passes it on, a load of the cell
+// is the stored value. (Adding a closure that merely reads a parameter must not change what a rule sees.)
+func unspill(v ssa.Value) ssa.Value {
+	ld, ok := v.(*ssa.UnOp)
+	if !ok || ld.Op != token.MUL {
+		return v
+	}
+	var cell ssa.Value = ld.X
+	var al *ssa.Alloc
+	switch x := cell.(type) {
+	case *ssa.Alloc:
+		al = x
+	case *ssa.FreeVar:
+		// inside the closure: find the cell in the enclosing function
+		fn := x.Parent()
+		par := fn.Parent()
+		if par == nil {
+			return v
+		}
+		idx := -1
+		for i, fv := range fn.FreeVars {
+			if fv == x {
+				idx = i
+			}
+		}
+		var mk *ssa.MakeClosure
+		n := 0
+		allInstrs(par, func(in ssa.Instruction) {
+			if m, ok := in.(*ssa.MakeClosure); ok && m.Fn == ssa.Value(fn) {
+				mk = m
+				n++
+			}
+		})
+		if n != 1 || idx < 0 || idx >= len(mk.Bindings) {
+			return v
+		}
+		al, _ = mk.Bindings[idx].(*ssa.Alloc)
+	}
+	if al == nil || al.Referrers() == nil {
+		return v
+	}
+	var store *ssa.Store
+	for _, ref := range *al.Referrers() {
+		switch r := ref.(type) {
+		case *ssa.Store:
+			if r.Addr != ssa.Value(al) || store != nil {
+				return v
+			}
+			store = r
+		case *ssa.UnOp:
+			if r.Op != token.MUL {
+				return v
+			}
+		case *ssa.MakeClosure:
+			cl, _ := r.Fn.(*ssa.Function)
+			if cl == nil {
+				return v
+			}
+			for i, bnd := range r.Bindings {
+				if bnd != ssa.Value(al) {
+					continue
+				}
+				if i >= len(cl.FreeVars) || cl.FreeVars[i].Referrers() == nil {
+					return v
+				}
+				for _, fr := range *cl.FreeVars[i].Referrers() {
+					if u, ok := fr.(*ssa.UnOp); !ok || u.Op != token.MUL {
+						return v
+					}
+				}
+			}
+		case *ssa.DebugRef:
+		case *ssa.IndexAddr, *ssa.FieldAddr:
+			// reading a part of the variable (handle[0]) is no write
+			if !onlyRead(r.(ssa.Value), 0) {
+				return v
+			}
+		default:
+			return v
+		}
+	}
+	if store == nil {
+		return v
+	}
+	if _, inClosure := cell.(*ssa.FreeVar); !inClosure {
+		if !instrDominates(store, ld) {
+			return v
+		}
+	} else {
+		// the closure is created after the store
+		okAll := true
+		for _, ref := range *al.Referrers() {
+			if mk, ok := ref.(*ssa.MakeClosure); ok && !instrDominates(store, mk) {
+				okAll = false
+			}
+		}
+		if !okAll {
+			return v
+		}
+	}
+	return store.Val
 }
 
 func isNilConst(v ssa.Value) bool {
@@ -307,6 +415,39 @@ func errChecksOf(v ssa.Value) []errCheck {
 		}
 	}
 	visit(v)
+	return out
+}
+
+// errChecksDeep: errChecksOf, also following the value into private helpers it is handed to (txn, err := Begin();
+// return finish(txn, err) tests the error inside finish). The blocks of such a check belong to the helper.
+func errChecksDeep(v ssa.Value) []errCheck {
+	out := errChecksOf(v)
+	seen := map[ssa.Value]bool{}
+	var follow func(x ssa.Value, depth int)
+	follow = func(x ssa.Value, depth int) {
+		if seen[x] || depth > 3 || x.Referrers() == nil {
+			return
+		}
+		seen[x] = true
+		for _, r := range *x.Referrers() {
+			switch u := r.(type) {
+			case *ssa.Phi:
+				follow(u, depth)
+			case *ssa.Call:
+				h := privateHelperOf(&u.Call)
+				if h == nil {
+					continue
+				}
+				for i, a := range u.Call.Args {
+					if a == x && i < len(h.Params) {
+						out = append(out, errChecksOf(h.Params[i])...)
+						follow(h.Params[i], depth+1)
+					}
+				}
+			}
+		}
+	}
+	follow(v, 0)
 	return out
 }
 
@@ -439,4 +580,27 @@ func retVal(ret *ssa.Return, i int) ssa.Value {
 		return last
 	}
 	return v
+}
+
+// onlyRead: the address a is used for nothing but loads (of it or of parts of it).
+func onlyRead(a ssa.Value, depth int) bool {
+	if a.Referrers() == nil || depth > 3 {
+		return false
+	}
+	for _, ref := range *a.Referrers() {
+		switch r := ref.(type) {
+		case *ssa.UnOp:
+			if r.Op != token.MUL {
+				return false
+			}
+		case *ssa.IndexAddr, *ssa.FieldAddr:
+			if !onlyRead(r.(ssa.Value), depth+1) {
+				return false
+			}
+		case *ssa.DebugRef:
+		default:
+			return false
+		}
+	}
+	return true
 }
